@@ -20,7 +20,7 @@ for d in sorted(glob.glob(os.path.join(HERE, "seeded", "*"))):
     ok = (conf.get("demo_exit_with_change") == 1 and conf.get("demo_exit_without_change") == 0 and conf.get("baseline_ok", None) is True)
     caught, missed = [], []
     for k, v in sorted(m.get("checks", {}).items()):
-        pid = k.split(":")[0]
+        pid = k.split(":")[0] + ("(thorough tier)" if ":thorough:" in k else "")
         (caught if v["exit"] == 1 else missed).append(pid + ("(exit 2!)" if v["exit"] == 2 else ""))
     summ = (m.get("summary") or "").replace("\n", " ").replace("|", "/")
     needs = (m.get("needs") or "")
